@@ -132,18 +132,20 @@ def replay(r):
             a0 = [torch.randn(B0, 1, generator=g, dtype=torch.float64) for _ in range(n_args)]
             if n_args:
                 kw["args"] = tuple(a0)
+            if r.get("start") is not None:
+                kw["start"] = r["start"]
             yb, ya = mg.marginalize_annotations(m, X, X0, ann, alphabet=alphabet, **kw)
             na = len(r["annotations"])
 
             def after(i):
                 idx, s, e = r["annotations"][i[0]]
-                Xs = ersatz.substitute(X0, X[idx:idx + 1, :, s:e])
+                Xs = ersatz.substitute(X0, X[idx:idx + 1, :, s:e], start=r.get("start"))
                 return Xs[i[1]:i[1] + 1], [a[i[1]:i[1] + 1] for a in a0]
             bad = cmp(yb, (na, B0), lambda i: (X0[i[1]:i[1] + 1], [a[i[1]:i[1] + 1] for a in a0]), "before") or cmp(ya, (na, B0), after, "after")
         elif k == "ablate":
             n, s, e, seed = r["n"], r["start"], r["end"], r.get("seed", 3)
             yb, ya = ab.ablate(m, X, s, e, n=n, random_state=seed, **kw)
-            Xp = ersatz.shuffle(X, start=s, end=e, n=n, random_state=seed)
+            Xp = ersatz.shuffle(X, start=s, end=(e if e >= 0 else L + 1 + e), n=n, random_state=seed)
             bad = cmp(yb, (B,), lambda i: (X[i[0]:i[0] + 1], [a[i[0]:i[0] + 1] for a in args]), "before") or \
                 cmp(ya, (B, n), lambda i: (Xp[i[0], i[1]][None], [a[i[0]:i[0] + 1] for a in args]), "after")
         elif k == "ablate_annotations":
@@ -250,6 +252,12 @@ def worker(cfg):
                 ann = T.Tensor(np.array(rows, dtype=object), dtype="int64")
                 base["x0"] = lambda m: C.eval_chars(m, x0)
                 base["annotations"] = lambda m: [[core.model_value(m, v) for v in row] for row in rows]
+                mstart = None
+                if cfg.get("start") == "sym":
+                    mstart = core.Int("mstart")
+                    ctx.assume(s_and(mstart >= 0, *[mstart + (row[2] - row[1]) <= L0 for row in rows]))
+                    kw["start"] = mstart
+                base["start"] = lambda m: (None if mstart is None else core.model_value(m, mstart))
                 yb, ya = mods["marginalize"].marginalize_annotations(model, X, X0, ann, alphabet=alphabet, **kw)
                 mdl = ctx.model() if ctx.check() == z3.sat else None
                 rv = [[core.model_value(mdl, v) for v in row] for row in rows]
@@ -259,7 +267,7 @@ def worker(cfg):
                 def after(t, d, i):
                     idx, s, e = rows[i[0]][0], rv[i[0]][1], rv[i[0]][2]
                     w = e - s
-                    p = L0 // 2 - w // 2
+                    p = (L0 // 2 - w // 2) if mstart is None else mstart
                     src = [sel([xc[b][q] for b in range(B)], idx) for q in range(s, e)]      # example idx may stay symbolic
                     return F(spec_substitute(list(x0[i[1]]), src, p), [list(a.a[i[1]].flat) for a in a0])(t, d)
                 claim = s_and(_rows_claim(yb, (na, B0), lambda t, d, i: F(list(x0[i[1]]), [list(a.a[i[1]].flat) for a in a0])(t, d), kind, n_out),
@@ -277,13 +285,19 @@ def worker(cfg):
                     return list(chars[:s]) + [sel(region, perm[t]) for t in range(Wd)] + list(chars[e:])
                 if k == "ablate":
                     start, end = core.Int("start"), core.Int("end")
-                    ctx.assume(s_and(start >= 0, start < end, end <= L))
+                    if cfg.get("end_mode") == "neg":
+                        # library convention (ersatz.shuffle): a negative end means L + 1 + end, -1 = whole sequence
+                        ctx.assume(s_and(start >= 0, end < 0, start < L + 1 + end))
+                        eff_end = L + 1 + end
+                    else:
+                        ctx.assume(s_and(start >= 0, start < end, end <= L))
+                        eff_end = end
                     base["start"] = lambda m: core.model_value(m, start)
                     base["end"] = lambda m: core.model_value(m, end)
                     yb, ya = mods["ablate"].ablate(model, X, start, end, n=n, random_state=seed, **kw)
                     mdl = ctx.model() if ctx.check() == z3.sat else None
-                    sv, ev = core.model_value(mdl, start), core.model_value(mdl, end)
-                    if ctx.prove(s_and(start == sv, end == ev), "window concretised") is not None:
+                    sv, ev = core.model_value(mdl, start), core.model_value(mdl, eff_end)
+                    if ctx.prove(s_and(start == sv, eff_end == ev), "window concretised") is not None:
                         raise core.Inconclusive("window not determined on this path")
                     claim = s_and(_rows_claim(yb, (B,), lambda t, d, i: F(list(xc[i[0]]), argrow(i[0]))(t, d), kind, n_out),
                                   _rows_claim(ya, (B, n), lambda t, d, i: F(shuffled(list(xc[i[0]]), sv, ev, i[1]), argrow(i[0]))(t, d), kind, n_out))
@@ -309,20 +323,22 @@ def worker(cfg):
                 spv = [[core.Int("sp%d_%d" % (s_, q)) for q in range(len(ws) - 1)] for s_ in range(S)]
                 start = core.Int("start")
                 ctx.assume(start >= 0)
+                default_start = cfg.get("start") == "none"
                 for row in spv:
-                    tot = start
+                    tot = 0 if default_start else start
                     for q, w in enumerate(ws):
                         tot = tot + w + (row[q] if q < len(row) else 0)
                     ctx.assume(s_and(*[v >= 0 for v in row], tot <= L))
                 spt = T.Tensor(np.array(spv, dtype=object).reshape(S, len(ws) - 1), dtype="int32")
                 base["motifs"] = lambda m: [C.eval_chars(m, mc) for mc in mcs]
                 base["spacing"] = lambda m: [[core.model_value(m, v) for v in row] for row in spv]
-                base["start"] = lambda m: core.model_value(m, start)
-                yb, ya = mods["space"].space(model, X, mos, spt, start=start, alphabet=alphabet, **kw)
+                base["start"] = lambda m: (None if default_start else core.model_value(m, start))
+                yb, ya = mods["space"].space(model, X, mos, spt, start=None if default_start else start, alphabet=alphabet, **kw)
 
                 def after(t, d, i):
                     cur = list(xc[i[0]])
-                    p = start
+                    # default: the whole construct of THIS spacing row is centred
+                    p = (L // 2 - (sum(ws) + s_sum(spv[i[1]])) // 2) if default_start else start
                     for q, w in enumerate(ws):
                         cur = spec_substitute(cur, list(mcs[q][0]), p)
                         p = p + w + (spv[i[1]][q] if q < len(ws) - 1 else 0)
@@ -368,6 +384,10 @@ def configs(tier):
             cf.append(dict(kind="marginalize", A=3, B=2, L=4, w=2, out=kind, n_out=n_out, n_args=n_args))
             cf.append(dict(kind="ablate", A=2, B=2, L=3 if q else 4, n=2, out=kind, n_out=n_out, n_args=n_args))
             cf.append(dict(kind="space", A=2, B=2, L=4 if q else 5, ws=[1, 1], S=2, out=kind, n_out=n_out, n_args=n_args))
+            if n_args == 0:
+                cf.append(dict(kind="space", A=2, B=1, L=5 if q else 6, ws=[1, 1], S=2, start="none", out=kind, n_out=n_out, n_args=0))
+                cf.append(dict(kind="ablate", A=2, B=2, L=3, n=2, end_mode="neg", out=kind, n_out=n_out, n_args=0))
+                cf.append(dict(kind="marginalize_annotations", A=2, B=2, L=3, B0=1, L0=4, n_ann=2, start="sym", out=kind, n_out=n_out, n_args=0))
             for na in (1, 3):
                 cf.append(dict(kind="marginalize_annotations", A=2, B=2, L=3, B0=2 if na == 1 else 1, L0=3, n_ann=na, out=kind, n_out=n_out, n_args=n_args))
         for na in (1, 3):
